@@ -433,20 +433,12 @@ func ruleRemovalKeys(c *core.Ctx) {
 			c.Undecided(rule, key, token.NoPos, "anchor not found")
 			continue
 		}
-		_, dels := mapWrites(fn, fld)
-		// the critical section may live in a helper that is handed the id (obj, ok := s.detach(id))
-		var via *ssa.Call
-		var viaFn *ssa.Function
-		if len(dels) == 0 {
-			for _, call := range core.Calls(fn) {
-				h := core.StaticCallee(call)
-				cv, plain := call.(*ssa.Call)
-				if h == nil || !plain || h == fn || !inRepo(h) || h.Pkg != fn.Pkg {
-					continue
-				}
-				if _, hd := mapWrites(h, fld); len(hd) > 0 {
-					dels, via, viaFn = hd, cv, h
-				}
+		// the critical section may live in private helpers that are handed the id
+		// (obj, ok := s.detach(id), which calls s.forget(id))
+		var dels []tableOp
+		for _, op := range tableOps(c, fn, fld, 0) {
+			if op.isDel {
+				dels = append(dels, op)
 			}
 		}
 		if len(dels) == 0 {
@@ -455,28 +447,15 @@ func ruleRemovalKeys(c *core.Ctx) {
 		}
 		ok := true
 		for _, d := range dels {
-			k := core.Canon(d.Call.Args[1])
-			p, isP := k.(*ssa.Parameter)
-			switch {
-			case isP && via == nil && p.Parent() == fn:
-			case isP && via != nil && p.Parent() == viaFn:
-				// the helper's key parameter receives the request's id
-				bound := false
-				for i, hp := range viaFn.Params {
-					if hp == p && i < len(via.Call.Args) {
-						if ap, isAP := core.Canon(via.Call.Args[i]).(*ssa.Parameter); isAP && ap.Parent() == fn {
-							bound = true
-						}
-					}
-				}
-				if !bound {
-					ok = false
-				}
-			default:
+			if d.key == nil {
+				ok = false
+				continue
+			}
+			if p, isP := core.Canon(d.key).(*ssa.Parameter); !isP || p.Parent() != fn {
 				ok = false
 			}
 		}
-		c.Check(ok, rule, key, dels[0].Pos(), "delete uses the id the request named", "delete("+s.field+", k): k is not the id parameter of the removal request — something else than what was named is removed")
+		c.Check(ok, rule, key, dels[0].at.Pos(), "delete uses the id the request named", "delete("+s.field+", k): k is not the id parameter of the removal request — something else than what was named is removed")
 	}
 }
 
